@@ -29,6 +29,8 @@ func TestCheck(t *testing.T) {
 		exitCode = runC08(run)
 	case "C10":
 		exitCode = runC10c(run)
+	case "C01":
+		exitCode = runC01daemon(run)
 	default:
 		fmt.Println("unknown property", prop)
 	}
